@@ -81,11 +81,15 @@ class Interp(StmtMixin, ExtMixin, OpsMixin, InterpCore):
 
     # generators are lazy: their evaluations happen when they are consumed ------
     def e_GeneratorExp(self, node, env):
-        return GenV(lambda: InterpCore.e_GeneratorExp(self, node, env))
+        g = GenV(lambda: InterpCore.e_GeneratorExp(self, node, env))
+        g.born = len(self.loop_stack)
+        return g
 
     def run_generator(self, fi, env, node):
         depth_stack = list(self.stack)
-        return GenV(lambda: self._force_in(depth_stack, env, lambda: self.run_generator_now(fi, env, node)))
+        g = GenV(lambda: self._force_in(depth_stack, env, lambda: self.run_generator_now(fi, env, node)))
+        g.born = len(self.loop_stack)
+        return g
 
     def _force_in(self, stack, env, fn):
         saved = self.stack
@@ -107,6 +111,11 @@ class Interp(StmtMixin, ExtMixin, OpsMixin, InterpCore):
 
     def as_iterable(self, v, node=None):
         if isinstance(v, GenV):
+            if v.consumed:
+                return ListV([], "list")     # a generator yields its items once
+            if len(self.loop_stack) > v.born:
+                raise AnalysisError("a generator created outside a loop is consumed inside it (only the first iteration sees its items)")
+            v.consumed = True
             first = v.value is None
             val, evs = self.force(v)
             if first:
@@ -116,7 +125,24 @@ class Interp(StmtMixin, ExtMixin, OpsMixin, InterpCore):
         return StmtMixin.as_iterable(self, v, node)
 
     def run_for(self, st, it, env):
+        if isinstance(it, GenV) and it.consumed:
+            return
+        if isinstance(it, GenV) and len(self.loop_stack) > it.born:
+            # created outside the enclosing symbolic loop, consumed inside: only its first iteration sees the items
+            ctx = self.loop_stack[it.born]
+            it.consumed = True
+            val, evs = self.force(it)
+            for e in evs:
+                self.log_event(e)
+            cond = Cond("cmp", "==", Num(ep.sym(ctx.var) - ctx.lo), Num(ep.const(0)))
+            self.path_conds.append((cond, True))
+            try:
+                StmtMixin.run_for(self, st, val, env)
+            finally:
+                self.path_conds.pop()
+            return
         if isinstance(it, GenV) and it.value is None:
+            it.consumed = True
             val, evs = self.force(it)
             n0 = len(self.event_stack[-1])
             StmtMixin.run_for(self, st, val, env)
@@ -144,7 +170,7 @@ class Interp(StmtMixin, ExtMixin, OpsMixin, InterpCore):
 
     def m_BufV_writelines(self, base, args, kwargs, node):
         g = args[0]
-        lazy = isinstance(g, GenV) and g.value is None
+        lazy = isinstance(g, GenV) and g.value is None and not g.consumed
         if lazy:
             val, evs = self.force(g)
             n0 = len(self.event_stack[-1])
@@ -325,6 +351,8 @@ class GenV(V):
         self.thunk = thunk
         self.value = None
         self.events = None
+        self.consumed = False
+        self.born = 0
 
     def key(self):
         return ("gen", id(self))
